@@ -32,6 +32,7 @@ import tempfile
 import urllib.parse
 
 import ZConfig
+import ZConfig.loader
 
 from zcsim import layout
 from zcsim import ops
@@ -393,6 +394,24 @@ def _execute(plan, out, store, decoys_in, top, real, report_plan=None):
         fired = w.op_fired
         w.end_op("ok" if oc["ok"] else oc["cls"])
         out["evaluations"] += 2
+        if not faults:
+            # the same cut universe twice more through ONE ConfigLoader
+            # object: a loader keeps nothing from one load to the next that
+            # changes the outcome (include stack, caches of resources ...)
+            ld = ZConfig.loader.ConfigLoader(schema)
+            for k in (1, 2):
+                w.begin_op("load-cut-same-loader-%d" % k)
+                ok_ = ops.config_outcome(lambda: ld.loadURL(top))
+                opened_k = list(w.opened)
+                w.end_op("ok" if ok_["ok"] else ok_["cls"])
+                out["evaluations"] += 1
+                if not ops.same_outcome(ok_, oc) or opened_k != opened:
+                    violation("same-loader-differs",
+                              "load %d of the cut layout through one "
+                              "ConfigLoader gives %s (opened %r); "
+                              "ZConfig.loadConfig gave %s (opened %r)"
+                              % (k, ops.brief(ok_), opened_k, ops.brief(oc),
+                                 opened))
         out["log"].append("inlined: %s" % ops.brief(oi))
         out["log"].append("cut: %s ; opened %r ; expected %r"
                           % (ops.brief(oc), opened, expected))
